@@ -92,4 +92,10 @@ CHECKS["C02"] = {
     "text": "Same world product for output rails; per turn the bot message is LLM generated or predefined and every effective accept/reject/rewrite(v1) vector is applied: rails invoked in order on the current text, rejected text never in the response, rewritten text returned; every sequence of turns up to the bound, so each block/rewrite in turn k is followed by fully checked turns (counted as turns_after_a_block_or_rewrite).",
     "note": _E3_NOTE,
 }
+CHECKS["C16"] = {
+    "engine": "E3-world", "level": "exploration",
+    "technique": "exhaustive enumeration of all 16 rail-category subsets (list and dict form) x verdict vectors x supplied-bot-message x dialog path on a real LLMRails instance; oracle = the documented rails-only table + the log of invoked rails",
+    "text": "Both a general-mode and a dialog world with two input, two output and one retrieval rail; for every subset of {input, dialog, retrieval, output} and every effective verdict vector: exactly the selected categories invoke their rails, no LLM call unless dialog is selected, rails-only replies are the unchanged / rewritten user text, the supplied bot message / its rewritten form, or the refusal; log.activated_rails lists exactly the invoked input/output rails in order with `stop` on exactly the blocking rail.",
+    "note": _E3_NOTE + " Supplied bot message uses role `assistant`.",
+}
 NOT_APPLICABLE = {}
